@@ -79,8 +79,9 @@ def random_p7():
 
 
 def random_sd7():
+    # standard deviations below 1e-12 (m, ppm, arcsec) are replaced by 0: their squares underflow to subnormals
     return st.tuples(S.floats(0, 0.1), S.floats(0, 0.1), S.floats(0, 0.1), S.floats(0, 0.01),
-                     S.floats(0, 0.01), S.floats(0, 0.01), S.floats(0, 0.01)).map(list)
+                     S.floats(0, 0.01), S.floats(0, 0.01), S.floats(0, 0.01)).map(lambda t: [0.0 if v < 1e-12 else v for v in t])
 
 
 _U = S.floats(-1.0, 1.0)
